@@ -77,7 +77,19 @@ class PEval:
         if isinstance(e, (ast.Tuple, ast.List)):
             return tuple(self.ev(x, env) for x in e.elts)
         if isinstance(e, ast.JoinedStr):
-            return sym('fstring')
+            out = ''
+            for v in e.values:
+                if isinstance(v, ast.Constant) and isinstance(v.value, str):
+                    out += v.value
+                elif isinstance(v, ast.FormattedValue) and v.conversion == -1 and v.format_spec is None:
+                    pv = self.ev(v.value, env)
+                    if is_const(pv) and isinstance(pv, str):
+                        out += pv
+                    else:
+                        return sym('fstring')
+                else:
+                    return sym('fstring')
+            return out
         if isinstance(e, ast.UnaryOp):
             v = self.ev(e.operand, env)
             if is_const(v):
@@ -130,9 +142,11 @@ class PEval:
             if isinstance(e.slice, ast.Slice):
                 lo = self.ev(e.slice.lower, env) if e.slice.lower is not None else None
                 hi = self.ev(e.slice.upper, env) if e.slice.upper is not None else None
-                if is_const(base) and isinstance(base, (str, bytes, tuple)) and (lo is None or isinstance(lo, int)) and (hi is None or isinstance(hi, int)):
-                    return base[lo:hi]
-                return ('slice', base, lo, hi)
+                st = self.ev(e.slice.step, env) if e.slice.step is not None else None
+                if is_const(base) and isinstance(base, (str, bytes, tuple)) and (lo is None or isinstance(lo, int)) and (hi is None or isinstance(hi, int)) \
+                        and (st is None or isinstance(st, int)):
+                    return base[lo:hi:st]
+                return ('slice', base, lo, hi) if st is None else ('slice', base, lo, hi, st)
             k = self.ev(e.slice, env)
             if isinstance(base, dict) and is_const(k):
                 if self._hashable(k) in base:
@@ -191,6 +205,12 @@ class PEval:
                 return tuple(getattr(base, e.func.attr)())
         if name == 'dict' and len(args) == 1 and isinstance(args[0], dict) and not kw:
             return dict(args[0])
+        if name == 'getattr' and len(args) == 2 and isinstance(args[1], str) and isinstance(args[0], tuple) and args[0] and args[0][0] == 'sym':
+            return sym(f'{args[0][1]}.{args[1]}')
+        if name == 'reversed' and len(args) == 1 and is_const(args[0]) and isinstance(args[0], tuple):
+            return tuple(reversed(args[0]))
+        if name in ('tuple', 'list') and len(args) == 1 and is_const(args[0]) and isinstance(args[0], tuple):
+            return tuple(args[0])
         if name == 'setattr' and len(args) == 3:
             self.calls.append(('setattr', args, e, self.f.key))
             if isinstance(args[1], str):
